@@ -1289,3 +1289,70 @@ func c01r9(rc *core.RC) {
 		rc.Check(ok && strings.Contains(name, "StringCode"), "encoder.mapKeyCode/kind "+k, cc.Pos(), "integer keys are compiled with the quoting constructor (%s)", name)
 	}
 }
+
+// ---- C01.R10 ptrToUint64 reads exactly the number of bits it is asked for ----
+
+// The omitempty tests of integer fields and the integer printers read the field through
+// ptrToUint64(p, bitSize). Each `case N` of its switch must dereference an N-bit unsigned type:
+// a narrower read makes values whose low bits are zero look empty (the member disappears), a wider
+// one reads the neighbouring field.
+func c01r10(rc *core.RC) {
+	p := rc.P
+	for _, pk := range []string{"vm", "vm_indent", "vm_color", "vm_color_indent"} {
+		fd := p.Func(pk, "ptrToUint64")
+		if fd == nil {
+			rc.Unknown(pk+".ptrToUint64", token.NoPos, "not found")
+			continue
+		}
+		rc.Touch(pk + ".ptrToUint64")
+		info := p.Info(fd)
+		seen := map[int64]bool{}
+		ast.Inspect(fd.Body, func(m ast.Node) bool {
+			cc, ok := m.(*ast.CaseClause)
+			if !ok {
+				return true
+			}
+			for _, l := range cc.List {
+				bits, isConst := core.ConstInt(info, l)
+				if !isConst {
+					continue
+				}
+				seen[bits] = true
+				key := fmt.Sprintf("%s.ptrToUint64/case %d", pk, bits)
+				// the widths of all pointer element types mentioned in the clause
+				var widths []int64
+				for _, st := range cc.Body {
+					ast.Inspect(st, func(x ast.Node) bool {
+						if st, isStar := x.(*ast.StarExpr); isStar {
+							if tv, has := info.Types[st.X]; has && tv.IsType() {
+								if b, isBasic := tv.Type.Underlying().(*types.Basic); isBasic && b.Info()&types.IsInteger != 0 {
+									if sz := p.Pkg(pk).TypesSizes.Sizeof(b); sz > 0 {
+										widths = append(widths, sz*8)
+									}
+								}
+							}
+						}
+						return true
+					})
+				}
+				if len(widths) == 0 {
+					rc.Unknown(key, cc.Pos(), "no integer dereference found in the clause")
+					continue
+				}
+				ok := true
+				for _, w := range widths {
+					if w != bits {
+						ok = false
+					}
+				}
+				rc.Check(ok, key, cc.Pos(), "the clause for bitSize %d reads integer(s) of width %v", bits, widths)
+			}
+			return true
+		})
+		for _, b := range []int64{8, 16, 32, 64} {
+			if !seen[b] {
+				rc.Bad(fmt.Sprintf("%s.ptrToUint64/case %d", pk, b), fd.Pos(), "no clause for bitSize %d", b)
+			}
+		}
+	}
+}
